@@ -8,17 +8,17 @@ Definition l_add (l : list K) (x : K) : list K := if l_mem x l then l else l ++ 
 Fixpoint l_remove (x : K) (l : list K) : list K :=        (* list.remove: first occurrence *)
   match l with
   | [] => []
-  | y :: r => if Nat.eqb x y then r else y :: l_remove x r
+  | y :: r => if N.eqb x y then r else y :: l_remove x r
   end.
 
 Fixpoint l_index (x : K) (l : list K) : option nat :=     (* list.index *)
   match l with
   | [] => None
-  | y :: r => if Nat.eqb x y then Some 0
+  | y :: r => if N.eqb x y then Some 0
               else match l_index x r with Some i => Some (S i) | None => None end
   end.
 
-Definition l_count (x : K) (l : list K) : nat := length (filter (Nat.eqb x) l).
+Definition l_count (x : K) (l : list K) : nat := length (filter (N.eqb x) l).
 Definition l_delete (j : nat) (l : list K) : list K := firstn j l ++ skipn (S j) l.   (* del l[j] *)
 
 (* l[a:b:k] for k > 0, transcribed from PySlice_AdjustIndices / list_subscript *)
@@ -34,7 +34,7 @@ Definition l_slice (l : list K) (a b : option Z) (k : nat) : list K :=
   let start := Z.to_nat (clamp_bound n a 0%Z) in
   let stop := Z.to_nat (clamp_bound n b n) in
   let cnt := if start <? stop then (stop - start - 1) / k + 1 else 0 in
-  map (fun t => nth (start + t * k) l 0) (seq 0 cnt).
+  map (fun t => nth (start + t * k) l 0%N) (seq 0 cnt).
 
 Definition in_all (os : list operand) (x : K) : bool := forallb (opd_mem x) os.
 Definition in_any (os : list operand) (x : K) : bool := existsb (opd_mem x) os.
@@ -74,7 +74,7 @@ Definition spec_step1 (l : list K) (o : op) : list K * res ret :=
                 | x :: _ => (removelast l, Ok (RItem x))
                 end
   | Pop (Some i) => match norm_index (length l) i with
-                    | Some j => (l_delete j l, Ok (RItem (nth j l 0)))
+                    | Some j => (l_delete j l, Ok (RItem (nth j l 0%N)))
                     | None => (l, Raise IndexError)
                     end
   | Clear => ([], Ok RNone)
@@ -93,7 +93,7 @@ Definition spec_step1 (l : list K) (o : op) : list K * res ret :=
   | IsSuperset o => (l, Ok (RBool (forallb (fun x => l_mem x l) (o_elems o))))
   | IsDisjoint o => (l, Ok (RBool (forallb (fun x => negb (l_mem x l)) (o_elems o))))
   | GetItem i => match norm_index (length l) i with
-                 | Some j => (l, Ok (RItem (nth j l 0)))
+                 | Some j => (l, Ok (RItem (nth j l 0%N)))
                  | None => (l, Raise IndexError)
                  end
   | Slice a b k => match k with
